@@ -34,15 +34,17 @@ let c06 toks =
   | ns :: rest ->
       let ns = int_of_string ns in
       let cfgs = Array.make ns { rc_at_ip = Z0; rc_at_fp = Z0; rc_arf_ip = Z0; rc_arf_fp = Z0; rc_max = Z0 } in
+      let nst = ref [] in
       let rec take_cfg k toks =
         if k = ns then toks
         else match toks with
-          | a :: b :: c :: d :: m :: _nstart :: tl ->
+          | a :: b :: c :: d :: m :: nstart :: tl ->
               cfgs.(k) <- { rc_at_ip = zi a; rc_at_fp = zi b; rc_arf_ip = zi c; rc_arf_fp = zi d; rc_max = zi m };
+              nst := (z_of_int k, zi nstart) :: !nst;
               take_cfg (k + 1) tl
           | _ -> failwith "c06 cfg" in
       let evtoks = take_cfg 0 rest in
-      let st = ref (rt_init Z0) in
+      let st = ref (rt_init Z0 (List.rev !nst)) in
       let outs = ref [] in
       Array.iteri (fun k c ->
         outs := Printf.sprintf "0.cfg:%d:%s:%s:%s:%s:%s" k (zs c.rc_at_ip) (zs c.rc_at_fp)
